@@ -633,7 +633,13 @@ def scalar_binding_check(plan, wb, resb, positions, stats):
         stats["o3_checked"] = stats.get("o3_checked", 0) + 1
         if rt.isfloat:
             eps = F32_EPS if rt.base == "f32" else F64_EPS
-            ok = all(close_enough(x, y, eps, scale) for x, y in zip(f1, f2))
+            if plan["mode"] == "bit":
+                # with infinities of both signs among the operands, two valid evaluation orders of a sum give inf or NaN:
+                # components that are not finite on either side are not compared in this content mode
+                pairs = [(x, y) for x, y in zip(f1, f2) if x == x and y == y and abs(x) != float("inf") and abs(y) != float("inf")]
+            else:
+                pairs = list(zip(f1, f2))
+            ok = all(close_enough(x, y, eps, scale) for x, y in pairs)
         else:
             ok = [int(x) for x in f1] == [int(y) for y in f2]
         if not ok:
